@@ -154,6 +154,10 @@ func (r *renderer) fillsOf(m ssa.Value, d int) []string {
 				}
 			case *ssa.ChangeType:
 				visit(x, off, depth+1)
+			case ssa.CallInstruction:
+				if b, isB := x.Common().Value.(*ssa.Builtin); isB && b.Name() == "copy" && x.Common().Args[0] == v {
+					set[off+"[:] ⇐ "+r.render(x.Common().Args[1], d+1)] = true
+				}
 			case *ssa.Phi:
 				// carried round a loop unchanged
 			}
